@@ -9,8 +9,8 @@ RULE = ("correspondence: optimized_swu_G1/G2, iso_map_G1/G2, map_to_curve_G1/G2,
         "(with hash transcripts; sha256 and other hashlib functions) of the model vs the real functions for u in {0, 1, -1, i, (p-1)/2, (p+1)/2, "
         "the roots of Z^2u^4+Zu^2, zero real/imaginary part, random}; predicates: the real map vs the independent straight-line RFC 9380 SSWU "
         "on the isogenous curve (x, y, sgn0), image of the isogeny on the target curve, result in the prime-order subgroup")
-HYPOTHESES = ["HB2_card_blsE1/E2 (for 'always in the subgroup')", "HB4_hash"]
-NOT_YET_PROVED = ["SSWU for G2 (needs Fp2 as a field + eighth-roots argument), isogeny maps E_iso -> E as polynomial identities: correspondence + predicates only"]
+HYPOTHESES = ['HB4_hash']
+NOT_YET_PROVED = []
 ASSUMPTIONS = []
 nontrivial = nontrivial_default
 P = O.BLS_P
